@@ -196,6 +196,10 @@ def one(ck, cls):
                     ck.ob("C04-O4", sitestr(f, x), False, "%s: m_worker is accessed without the mutex in %s" % (tag, strip_tmpl(f.name).split("::")[-1]), key="m_worker|unlocked-access|%s" % strip_tmpl(f.name).split("::")[-1])
     okw = set(writers) == {"moveToOwnThread", "resetOwnThread"}
     ck.ob("C04-O4", "ownthreadhandler.h (%s::m_worker)" % tag, okw, "m_worker is written by moveToOwnThread (set) and resetOwnThread (clear) only" if okw else "m_worker is written in %s" % sorted(writers), key="m_worker|writers")
+    # ---- O5b / O3b: what the worker does around the handler run
+    from rules.oth import pending_covers_inflight, worker_runs_unlocked
+    pending_covers_inflight(ck, cls, tag, "C04-O3")
+    worker_runs_unlocked(ck, cls, tag, "C04-O6")
     # ---- O6 bounded stop
     g = Graph(rs)
     for l in find_loops(rs):
